@@ -4,7 +4,11 @@ import "os"
 
 // the mapping file shipped with the collector
 func mappingYaml() []byte {
-	b, err := os.ReadFile("/repo/cmd/goflow2/mapping.yaml")
+	repo := os.Getenv("GF_REPO")
+	if repo == "" {
+		repo = "/repo"
+	}
+	b, err := os.ReadFile(repo + "/cmd/goflow2/mapping.yaml")
 	if err != nil {
 		panic(err)
 	}
